@@ -708,24 +708,27 @@ impl<'a, 'b, 'ast> Visit<'ast> for Collector<'a, 'b> {
                 self.loop_anchor(&w.body);
                 visit::visit_expr(self, e);
             }
-            Expr::ForLoop(w) if rw.for_range && matches!(&*w.expr, Expr::Range(r) if r.start.is_some() && r.end.is_some() && matches!(r.limits, syn::RangeLimits::HalfOpen(_))) && matches!(&*w.pat, syn::Pat::Ident(_)) => {
-                // R14 (option for_range=1): `for x in lo..hi { B }` over a half-open integer range ->
-                //   { let mut __itN = lo; let __hiN = hi; while __itN < __hiN  <invariant> decreases __hiN - __itN { let x = __itN; __itN += 1; B } }
-                // (this is rustc's desugaring specialised to Range<integer>; `continue` then needs no support in for-loops)
-                if let (Expr::Range(r), syn::Pat::Ident(pi)) = (&*w.expr, &*w.pat) {
+            Expr::ForLoop(w) if rw.for_range && matches!(&*w.expr, Expr::Range(r) if r.start.is_some() && r.end.is_some()) && matches!(&*w.pat, syn::Pat::Ident(_) | syn::Pat::Wild(_)) => {
+                // R14 (option for_range=1): `for x in lo..hi { B }` / `for x in lo..=hi { B }` over an integer range ->
+                //   the `while` desugaring (rustc's, specialised to integer ranges; `continue` then needs no support in for-loops)
+                if let Expr::Range(r) = &*w.expr {
                     self.record_header(e, &w.body);
                     let idx = rw.loop_idx.get();
                     rw.loop_idx.set(idx + 1);
+                    let var = match &*w.pat { syn::Pat::Ident(pi) => pi.ident.to_string(), _ => format!("__x{idx}") };
                     let lo = rw.render_expr(r.start.as_ref().unwrap());
                     let hi = rw.render_expr(r.end.as_ref().unwrap());
                     let inv = rw.section(&format!("loop {idx}")).map(|t| mark(t)).unwrap_or_default();
-                    // body statements rendered through a fresh collector so that nested anchors still apply
                     let mut c = Collector { rw, edits: vec![] };
                     for st in &w.body.stmts { c.visit_stmt(st); }
                     let br = w.body.span().byte_range();
                     let inner = apply_edits(rw.src, (br.start + 1)..(br.end - 1), c.edits);
                     let begin = rw.section(&format!("loop {idx} begin")).map(|t| format!("proof {{ //@p\n{}\n}} //@p\n", mark(t))).unwrap_or_default();
-                    let text = format!("{{ let mut __it{idx} = {lo}; let __hi{idx} = {hi};\nwhile __it{idx} < __hi{idx}\n{inv}\ndecreases __hi{idx} - __it{idx}, //@p\n{{ let {} = __it{idx}; __it{idx} += 1;\n{begin}{inner} }} }}", pi.ident);
+                    let text = if matches!(r.limits, syn::RangeLimits::HalfOpen(_)) {
+                        format!("{{ let mut __it{idx} = {lo}; let __hi{idx} = {hi};\nwhile __it{idx} < __hi{idx}\n{inv}\ndecreases __hi{idx} - __it{idx}, //@p\n{{ let {var} = __it{idx}; __it{idx} += 1;\n{begin}{inner} }} }}")
+                    } else {
+                        format!("{{ let mut __it{idx} = {lo}; let __hi{idx} = {hi}; let mut __go{idx} = __it{idx} <= __hi{idx};\nwhile __go{idx}\n{inv}\ndecreases (if __go{idx} {{ __hi{idx} - __it{idx} + 1 }} else {{ 0 }}), //@p\n{{ let {var} = __it{idx}; if __it{idx} < __hi{idx} {{ __it{idx} += 1; }} else {{ __go{idx} = false; }}\n{begin}{inner} }} }}")
+                    };
                     rw.count("R14");
                     let sp = e.span().byte_range();
                     self.edits.push((sp.start, sp.end, text));
@@ -783,6 +786,19 @@ impl<'a, 'b, 'ast> Visit<'ast> for Collector<'a, 'b> {
                         }
                         self.edits.push((sp.start, sp.end, format!("{} {{ {}{} }}", t.trim_end(), bind, body)));
                         rw.count("R11");
+                    }
+                    Some(t) => {
+                        // closure with an explicit return type and a block body: the contract section replaces
+                        // `-> T` (it must restate the type with a name:  -> (res: T) requires .. ensures ..)
+                        if let syn::ReturnType::Type(arrow, ty) = &c.output {
+                            let a = arrow.span().byte_range().start;
+                            let b = ty.span().byte_range().end;
+                            self.edits.push((a, b, t.trim_end().to_string()));
+                            let body = rw.render_expr(&c.body);
+                            let sp = c.body.span().byte_range();
+                            self.edits.push((sp.start, sp.end, body));
+                            rw.count("R11");
+                        }
                     }
                     _ => rw.err("unsupported-construct", format!("closure {idx} in body without a contract section")),
                 }
